@@ -21,7 +21,7 @@ FAMS = gen.ALL_FAMILIES + ("exp_wall", "badly_scaled", "rosenbrock", "oscillatin
 
 def floors(tier):
     return {"runs": 800, "sequence_points": 4000, "line_searches": 3000, "line_searches_without_convergence": 300,
-            "runs_budget_inside_search": 50, "restart_runs": 60, "runs_in_25_to_140_dimensions_with_memory_above_10": 80, "runs_in_64_to_140_dimensions": 30, "runs_with_user_step_cap": 100, "runs_with_free_optimum_grazing_a_bound": 60, "short_runs_with_capped_first_step": 200, "runs_from_a_low_precision_start": 60, "restart_runs_with_scaler_and_target": 60, "__nontrivial__": 200}
+            "runs_budget_inside_search": 50, "restart_runs": 60, "runs_preceded_by_a_probe_of_another_objective_with_the_same_start_and_start_value": 100, "runs_in_25_to_140_dimensions_with_memory_above_10": 80, "runs_in_64_to_140_dimensions": 30, "runs_with_user_step_cap": 100, "runs_with_free_optimum_grazing_a_bound": 60, "short_runs_with_capped_first_step": 200, "runs_from_a_low_precision_start": 60, "restart_runs_with_scaler_and_target": 60, "__nontrivial__": 200}
 
 
 def cases(tier, seed):
@@ -49,6 +49,11 @@ def cases(tier, seed):
         if i % 4 == 1:
             cfg["max_steplength"] = float(gen.pick(rng, [0.05, 0.1, 0.2, 0.5, 1.0, 2.0]))  # the user's cap on the step length
         yield {"problem": ps, "cfg": cfg}
+    for i in range(200 if tier == "quick" else 6000):
+        ps = gen.rand_spec(rng, ("qp", "qp_quartic", "qp_softplus", "rosenbrock"), nmax=6, boxes=("none", "none", "boxed", "lower"), starts=("interior", "face"), condmax=1e2)
+        yield {"problem": ps, "probe_first": {"cond": float(np.exp(rng.uniform(0, 4))), "scale": float(10.0 ** rng.uniform(-3, 3)),
+                                              "cut": gen.pick(rng, [{"maxfun": 2}, {"maxiter": 1}, {"maxfun": 3}, {"maxiter": 1, "maxls": 2}])},
+               "cfg": {"jac": "callable", "maxcor": int(rng.integers(1, 11)), "maxls": int(gen.pick(rng, [2, 5, 20])), "maxiter": 40, "maxfun": 15000, "ftol": 0.0, "gtol": 1e-9, "cb": "never"}}
     # a start vector in single / half precision, the run pushed to convergence (ftol = 0): the iterates themselves are double precision
     for i in range(200 if tier == "quick" else 6000):
         ps = gen.rand_spec(rng, ("qp", "qp_quartic", "rosenbrock", "badly_scaled", "styblinski_tang"), nmax=6, boxes=("none", "mixed", "boxed", "lower"))
@@ -160,6 +165,19 @@ def run(spec):
         out.count("runs_with_free_optimum_grazing_a_bound")
     else:
         P = gen.make_problem(spec["problem"])
+    if spec.get("probe_first"):
+        # a harness that normalises every objective to f(start) = 0 and starts every run from the same point: before the judged run
+        # another (shallower / steeper) objective is probed from that point with a run cut inside or right after its first line search
+        pr = spec["probe_first"]
+        Q = gen.make_problem(dict(spec["problem"], seed=int(spec["problem"]["seed"]) + 77, cond=float(pr["cond"]), geometry_from=dict(spec["problem"])))
+        if Q.n == P.n:
+            xs = np.clip(P.x0, P.lb, P.ub)
+            for R_, sc_ in ((P, 1.0), (Q, float(pr["scale"]))):
+                f_raw, g_raw, f_at = R_.f, R_.g, float(R_.f(xs.copy()))
+                R_.f = (lambda x, f_raw=f_raw, f_at=f_at, sc_=sc_: sc_ * (f_raw(x) - f_at))
+                R_.g = (lambda x, g_raw=g_raw, sc_=sc_: sc_ * g_raw(x))
+            probes.run_min(Q, dict(jac="callable", maxcor=5, **pr["cut"]))
+            out.count("runs_preceded_by_a_probe_of_another_objective_with_the_same_start_and_start_value")
     cfg = dict(spec["cfg"])
     if P.n >= 25:
         out.count("runs_in_25_to_140_dimensions_with_memory_above_10")
